@@ -9,7 +9,13 @@
 
   Where the code today violates the statement, the full statement is a `def … : Prop`, the
   theorem proved is the `_partial` one with the explicit exclusion, and a kernel-checked
-  counterexample shows the full statement false of the model (= known findings).
+  counterexample shows the full statement false of the model (= known findings); repaired
+  findings are `fixed_*` theorems.
+
+  Constructors go through the bridge Sem/DefineBridge.lean (class record → `FieldDecl.struct` →
+  `construct` of Sem/Validate.lean): `sub_accepts_base_accepts*`, `ctor_accepts_restricted`,
+  `abstract_not_instantiable_via`; the order of the required parameters (a Python set) is an
+  oracle argument everywhere.
 -/
 import TypedpyModel.Lemmas.DefineWorld
 import TypedpyModel.Lemmas.DefineBridge
@@ -248,7 +254,11 @@ theorem same_field_same_behaviour (O : Oracles) {c a : ClassDef} {n : String}
   simp only [fieldValidate, fieldDefault, h]
   exact ⟨fun _ => trivial, trivial⟩
 
-/-- the full "required" statement of C14: false of the code (see the counterexamples) -/
+/-- the "required" statement over `_required` (not only over the constructor parameters, which is
+    `sub_required_superset`).  Since /repo d18be04 + 82de3b9 the two findings that refuted it are
+    repaired (`fixed_second_base_required_kept`, `fixed_constant_required_kept`); what still refutes
+    it is by design: a subclass (or a branch earlier in the MRO) may REPLACE a base's required
+    Constant by a Field of its own that is optional (`fixed_constant_required_kept`, class `T`) -/
 def sub_required_superset_statement : Prop :=
   ∀ (O : Oracles) (w : World) (src : ClassSrc) (cd bd : ClassDef), WorldOk w →
     defineClass O w src = .ok cd → bd ∈ structBases w src →
